@@ -446,8 +446,12 @@ func (s *sharedEntryAttributes) shouldDelete() bool {
 	// but a real delete should only be added if there is at least one shouldDelete() == true
 	shouldDelete := false
 
+	// a presence container carries a value itself and can have childs at the same time
+	hasChilds := false
+
 	// iterate through the active childs
 	for _, c := range s.filterActiveChoiceCaseChilds() {
+		hasChilds = true
 		// check if the child can be deleted
 		canDelete = c.canDelete()
 		// if it can explicitly not be deleted, then the result is clear, we should not delete
@@ -469,7 +473,8 @@ func (s *sharedEntryAttributes) shouldDelete() bool {
 	//     shouldDelete() [only if an entry is explicitly to be deleted, issue a delete]
 	//   and
 	//     s.leafVariants.canDelete()
-	result := leafVariantshouldDelete || (canDelete && shouldDelete && s.leafVariants.canDelete())
+	//   a deleted value of a presence container must not take childs with it that remain
+	result := (!hasChilds && leafVariantshouldDelete) || (canDelete && (shouldDelete || leafVariantshouldDelete) && s.leafVariants.canDelete())
 
 	s.cacheShouldDelete = &result
 	return result
